@@ -1,10 +1,6 @@
 package harness
 
-import (
-	"time"
 
-	"github.com/enbility/spine-go/model"
-)
 
 // SELF — probes of the machinery itself (used by `./check selftest`, not a property):
 // two tasks write one variable without any synchronisation of their own. The only thing that
